@@ -19,7 +19,7 @@ def S(rules, *, explanation, decides, not_decided, assumptions, level_text, leve
 
 PROPS = {
     "C01": S(
-        version.RULES + layout.RULES + formulas.RULES + [o.opc3_prologue, o.opc3b_fillers, o.int_intervals, o.exi1_producers, o.join1, o.alias1, o.opc5_version_coverage, o.opc6_exit_templates, o.opc8_jump_arithmetic, o.opc10_handler_queue_order, safety.snap],
+        version.RULES + layout.RULES + formulas.RULES + [o.opc3_prologue, o.opc3b_fillers, o.int_intervals, o.exi1_producers, o.join1, o.alias1, o.opc5_version_coverage, o.opc6_exit_templates, o.opc8_jump_arithmetic, o.opc10_handler_queue_order, safety.snap, safety.eqkey1],
         explanation="Necessary conditions of 'contexts of a suspended frame are exact on CPython 3.9-3.12', decided from source: "
                     "partial evaluation of every sys.version_info branch over the four supported interpreters (every strict opcode lookup names an opcode that exists where it is reachable; "
                     "the ctypes module selected for V is one whose asserts hold for V; version-conditional names are bound wherever they are used); "
@@ -67,7 +67,7 @@ PROPS = {
         design_ref="DESIGN.md section 4, C05",
     ),
     "C08": S(
-        [o.opc2_target_decoder, o.opc3_prologue, o.opc3b_fillers, o.line1, o.fall1, version.ver1_opcodes, o.opc5_version_coverage, o.opc9_unpack_ex, o.opc10_handler_queue_order, safety.esc1],
+        [o.opc2_target_decoder, o.opc3_prologue, o.opc3b_fillers, o.line1, o.fall1, version.ver1_opcodes, o.opc5_version_coverage, o.opc9_unpack_ex, o.opc10_handler_queue_order, safety.esc1, safety.eqkey1],
         explanation="Exhaustiveness of the `as`-target decoder against the compilers: the set of opnames with a (non-raising) case in describe_assignment_target is compared with every opname that the compiler of each supported interpreter "
                     "emits in the store sequence of an always-rendered target (387 generated targets x 4 scopes x 4 interpreters, plus every always-rendered `as` target of every with statement of the 3.11 and 3.12 standard libraries, delimited by instruction source positions; compile+dis only); with-prologue lengths and fillers per interpreter (16 generated layouts plus every with statement of those standard libraries); "
                     "start_line is taken from the line tracking updated before the with-opcode test; the local-name fallback applies only when varname is None and obj is known, by identity.",
@@ -106,7 +106,7 @@ PROPS = {
         design_ref="DESIGN.md section 4, C11",
     ),
     "C12": S(
-        registry.C12 + [safety.idkey1],
+        registry.C12 + [safety.idkey1, safety.eqkey1],
         explanation="The dispatch registry is an IdentityDict; inside IdentityDict every keyed access wraps the key in id(), every store keeps the key object as element 0, every value accessor projects element 1 (sibling agreement); "
                     "get_code has a rebinding+continue case for partial, MethodType, classmethod, staticmethod and __wrapped__ and leaves its loop only through the final break; nested names are resolved through co_consts by co_name; "
                     "registration is an unconditional item store keyed by get_code(code, *names) (latest wins), dispatch falls back only on KeyError; every customize option is forwarded in the decorator form and has an effect in customize_it.",
@@ -145,7 +145,7 @@ PROPS = {
         design_ref="DESIGN.md section 4, C16",
     ),
     "C06": S(
-        safety.C06 + [safety.snap, o.alias1, o.exi1_producers, fmt.mode_rules, e.opt1, safety.idkey1] + layout.RULES + formulas.RULES,
+        safety.C06 + [safety.snap, o.alias1, o.exi1_producers, fmt.mode_rules, e.opt1, safety.idkey1, safety.eqkey1] + layout.RULES + formulas.RULES,
         explanation="Structural clauses of 'extraction is a pure observation': (ESC-1) in every function that can run during an extraction, every store into persistent state (globals, module-level containers and objects, "
                     "mutable defaults, thread-local state, closure cells of registered hooks, memoising decorators) is enumerated and its stored value must not be derived from a target (value-provenance propagation with id/len/repr/type/code-object sanitisers); "
                     "(ESC-2) no send/throw/close/asend/athrow/aclose/__next__/next() on anything the package did not create itself, and unwrap results are iterated only as FrameIterator/Sequence; "
